@@ -1163,8 +1163,11 @@ static carquet_status_t load_next_page_mmap(
 
         /* Zero-copy only happens when max_def_level == 0, so all levels are 0.
          * Use memset for O(1) instead of O(n) loop */
-        memset(reader->decoded_def_levels, 0, sizeof(int16_t) * num_values);
-        memset(reader->decoded_rep_levels, 0, sizeof(int16_t) * num_values);
+        if (num_values > 0) {
+            /* (an empty page may come with no level buffers at all) */
+            memset(reader->decoded_def_levels, 0, sizeof(int16_t) * num_values);
+            memset(reader->decoded_rep_levels, 0, sizeof(int16_t) * num_values);
+        }
 
         reader->page_loaded = true;
         reader->page_num_values = num_values;
